@@ -52,7 +52,7 @@ Definition opt_eqb {A} (f : A -> A -> bool) (a b : option A) : bool :=
 Inductive op :=
 | ORenT (a c : Z)
 | ORenB (a c : Z)
-| OTrans (axes : list nat)
+| OTrans (axes : list Z)
 | OMerge (o : ndesc) (joins : list (nat * nat)) (ordT ordB : list Z).
 
 Definition step (n : net) (o : op) : option net :=
